@@ -105,6 +105,7 @@ type signInCase struct {
 	Introspect   string `json:"introspect_answer"`
 	Refresh      string `json:"refresh_answer"`
 	EmailClass   string `json:"email_class"`
+	TokenShape   string `json:"token_shape"`
 	Email        string `json:"email"`
 	EmailOK      bool   `json:"email_satisfies_rule"`
 	Allowed      bool   `json:"code_may_be_issued_ground_truth"`
@@ -158,6 +159,31 @@ func runSignIn(rep *vh.Report, env vh.Env, stacks []*stack, other *sut.AuthStack
 			rt = "irt-" + uniq + "-" + word(r, 6)
 		}
 		newTok, newRT := "nat-"+uniq+"-"+word(r, 6), "nrt-"+uniq+"-"+word(r, 6)
+		// token shapes: short unique ones, and long JWT-like ones that share a long prefix / suffix with
+		// every other session of this authenticator, or whose refreshed token is a near-twin of the old one
+		shape := []string{"short", "long-shared-prefix", "long-shared-suffix", "refreshed-near-twin"}[r.Intn(4)]
+		switch shape {
+		case "long-shared-prefix":
+			tok, newTok = st.sharedHead+"."+uniq+b64word(r, 20+r.Intn(300)), st.sharedHead+".n"+uniq+b64word(r, 20+r.Intn(300))
+			if hasRT {
+				rt = st.sharedHead[:120] + ".r" + uniq + b64word(r, 10)
+			}
+		case "long-shared-suffix":
+			tok, newTok = "eyJ"+uniq+b64word(r, 50+r.Intn(300))+st.sharedTail, "eyJn"+uniq+b64word(r, 50+r.Intn(300))+st.sharedTail
+			if hasRT {
+				rt = "r" + uniq + b64word(r, 30) + st.sharedTail[len(st.sharedTail)-100:]
+			}
+		case "refreshed-near-twin":
+			tok = "eyJ" + uniq + "q" + jwtLike(r, 150+r.Intn(500))
+			switch r.Intn(3) {
+			case 0:
+				newTok = swapCase(tok)
+			case 1:
+				newTok = tok + b64word(r, 8)
+			default:
+				newTok = tok[:len(tok)/2] + "~" + tok[len(tok)/2+1:]
+			}
+		}
 		ttl := []int64{3600, 1800, 300}[r.Intn(3)]
 
 		now := time.Now()
@@ -222,7 +248,7 @@ func runSignIn(rep *vh.Report, env vh.Env, stacks []*stack, other *sut.AuthStack
 		}
 
 		kc := signInCase{Index: i, Stack: st.idx, Rule: st.kind, RuleList: strings.Join(append(append([]string{}, st.rules.Domains...), st.rules.Addresses...), ","),
-			Cookie: cookieNames[cookie], LifetimePast: lifePast, RefreshDue: due, HasRT: hasRT,
+			TokenShape: shape, Cookie: cookieNames[cookie], LifetimePast: lifePast, RefreshDue: due, HasRT: hasRT,
 			Introspect: introspectClasses[intro].name, Refresh: refreshClasses[refr].name, EmailClass: emailClassNames[emailCls], Email: email, EmailOK: emailOK,
 			Status: rs.Status, IdPCalls: fmt.Sprintf("introspect(old)=%d refresh=%d introspect(new)=%d", len(introCalls), len(refrCalls), len(introNewCalls))}
 		if rs.Err != nil {
@@ -280,6 +306,10 @@ func runSignIn(rep *vh.Report, env vh.Env, stacks []*stack, other *sut.AuthStack
 				}
 				desc += "|" + emailClassNames[emailCls]
 			}
+		}
+		if genuine && !lifePast {
+			desc += "|" + shape
+			rep.Count("signin_token_shape_"+shape, 1)
 		}
 		rep.Distinct(desc)
 		rep.Count(fmt.Sprintf("signin_status_%d", rs.Status), 1)
